@@ -380,6 +380,11 @@ func (s *schemaBuilder) buildFromType(tpe types.Type, tgt swaggerTypable) error 
 			tgt.Typed("object", "")
 			return nil
 		}
+		if pkg.PkgPath == "encoding/json" && tio.Name() == "Number" {
+			// a json.Number is written as a JSON number
+			tgt.Typed("number", "")
+			return nil
+		}
 		cmt, hasComments := s.ctx.FindComments(pkg, tio.Name())
 		if !hasComments {
 			cmt = new(ast.CommentGroup)
